@@ -442,6 +442,9 @@ def run(plan, ch, want_log=False):
         own = "/verif/" in where or "harness" in where
         viol.append(("HARNESS" if own else "C03", "bookkeeping_exception", (repr(e)[:160], where[:160]),
                      dict(inverted=bool(b.inverted_tasks), swapped=b.swapped, exc=type(e).__name__)))
+        if not own and job.ext_outputs:
+            # whatever the reason, the caller did not get the datasets it asked for
+            viol.append(("C01", "run_raised_requested_outputs_not_delivered", (repr(e)[:160], where[:160]), dict(exc=type(e).__name__)))
         if not own and b.shutdown_calls != 1:
             viol.append(("C03", "no_shutdown_after_error", b.shutdown_calls, {}))
     finally:
